@@ -211,7 +211,7 @@ pub fn run(cfg: &Cfg, rep: &mut Report) {
     }
   }
   // random longer scripts with post-terminal events
-  let total = cfg.n(40_000, 8_000_000);
+  let total = cfg.n(200_000, 8_000_000);
   let mut rng = Rng::new(cfg.seed ^ 0xC20);
   for i in 0..total {
     let mut r = rng.fork();
